@@ -884,7 +884,7 @@ func TestVerifC19Edns(t *testing.T) {
 			msg.Extra = vC19GenExtra(r, pol)
 		} else {
 			raw, _, optOff, nopt := vC19WireQuery(r, b)
-			if nopt == 1 && wireCases%2 == 0 {
+			if wireCases%2 == 0 {
 				// the strict parser alone (Request.ParseWire -> parseWireOPT(optOff)), against the translated
 				// function: admitted?  and the facts it leaves on the request
 				var pr middleware.Request
@@ -900,7 +900,11 @@ func TestVerifC19Edns(t *testing.T) {
 						k += "-ecs"
 					}
 				}
-				tr.emit(map[string]any{"k": k, "coq": fmt.Sprintf("CaseWireOPT %s %d %s %s %s %s", vC19Octets(raw), optOff, vC19Bool(adm), vC19Bool(e), vC19Bool(ns), vC19Bool(ka)),
+				if nopt != 1 {
+					optOff = -1 // no single OPT: only the whole-packet model applies
+					k += fmt.Sprintf("-%dopt", nopt)
+				}
+				tr.emit(map[string]any{"k": k, "coq": fmt.Sprintf("CaseWireOPT %s (%d)%%Z %s %s %s %s", vC19Octets(raw), optOff, vC19Bool(adm), vC19Bool(e), vC19Bool(ns), vC19Bool(ka)),
 					"go_fail": "", "nontrivial": true,
 					"desc": map[string]any{"packet": hex.EncodeToString(raw), "opt_offset": optOff, "admitted": adm, "has_ecs": e, "has_nsid": ns, "has_keepalive": ka}})
 			}
